@@ -70,3 +70,58 @@ class date_fromordinal:
     returns = "py"
     raises = [R("ValueError", when=lambda n: not (1 <= n and n <= 3652059))]
     ensures = lambda n, result: S.is_date(result) and S.date_ordinal(result) == n
+
+
+# ---- datetime arithmetic (C16, timestamps): assumed contracts of the standard library, cross-checked by `vcheck axioms`.
+# dt_us: microseconds from 0001-01-01T00:00 (UTC instant of an aware datetime, wall clock of a naive one)
+@external("datetime.__sub__")
+class datetime_sub:
+    """datetime - datetime: the exact difference as a normalised timedelta; mixing aware and naive is a TypeError"""
+    params = ["a", "b"]
+    types = dict(a="py", b="py")
+    requires = lambda a, b: S.is_datetime(a) and S.is_datetime(b)
+    returns = "py"
+    raises = [R("TypeError", when=lambda a, b: S.dt_aware(a) != S.dt_aware(b))]
+    ensures = lambda a, b, result: (
+        S.is_timedelta(result) and S.td_total_us(result) == S.dt_us(a) - S.dt_us(b)
+        and 0 <= S.td_seconds(result) and S.td_seconds(result) < 86400
+        and 0 <= S.td_micros(result) and S.td_micros(result) < 1000000)
+
+
+@external("datetime.__add__")
+class datetime_add:
+    """datetime + timedelta: the instant moved by exactly the timedelta, same zone; outside years 1..9999 ⇒ OverflowError"""
+    params = ["a", "b"]
+    types = dict(a="py", b="py")
+    requires = lambda a, b: S.is_datetime(a) and S.is_timedelta(b)
+    returns = "py"
+    raises = [R("OverflowError", when=lambda a, b: not (
+        0 <= S.dt_us(a) + S.dt_offset_us(a) + S.td_total_us(b) and S.dt_us(a) + S.dt_offset_us(a) + S.td_total_us(b) <= S.MAX_DT_US))]
+    ensures = lambda a, b, result: (
+        S.is_datetime(result) and S.dt_us(result) == S.dt_us(a) + S.td_total_us(b)
+        and S.dt_aware(result) == S.dt_aware(a) and S.dt_offset_us(result) == S.dt_offset_us(a))
+
+
+@external("datetime.timedelta")
+class datetime_timedelta:
+    """timedelta(microseconds=n): exactly n microseconds (normalised); more than 999999999 days either way ⇒ OverflowError"""
+    params = ["microseconds"]
+    types = dict(microseconds="int")
+    returns = "py"
+    raises = [R("OverflowError", when=lambda microseconds: not (
+        -86399999913600000000 <= microseconds and microseconds <= 86399999999999999999))]
+    ensures = lambda microseconds, result: (
+        S.is_timedelta(result) and S.td_total_us(result) == microseconds
+        and 0 <= S.td_seconds(result) and S.td_seconds(result) < 86400
+        and 0 <= S.td_micros(result) and S.td_micros(result) < 1000000)
+
+
+@external("datetime.replace_tzinfo_utc")
+class datetime_replace_tzinfo_utc:
+    """naive.replace(tzinfo=timezone.utc): the same wall-clock reading, now as an instant in UTC"""
+    params = ["x"]
+    types = dict(x="py")
+    requires = lambda x: S.is_datetime(x) and not S.dt_aware(x)
+    returns = "py"
+    ensures = lambda x, result: (
+        S.is_datetime(result) and S.dt_aware(result) and S.dt_offset_us(result) == 0 and S.dt_us(result) == S.dt_us(x))
